@@ -52,7 +52,7 @@ FAULTS = [
     {'solve_for_raw': 'str'}, {'solve_for': [1, 2]}, {'solve_for': ['TIDAL']}, {'solve_for': ['tidal', 'loading', 'free', 'tidal', 'loading']},
     {'layer_types': ['plasma']}, {'layer_types_len': 2}, {'static_len': 2}, {'incomp_len': 0}, {'upper_len': 2}, {'layer_types_raw': 'list'},
     {'kw': {'integration_method': 'euler'}}, {'kw': {'integration_method': ''}}, {'nper': 3}, {'nper': 2}, {'nper': 4},
-    {'upper': 'too_small'}, {'upper': 'unsorted'}, {'upper': 'negative'}, {'upper': 'nan'}, {'upper': 'beyond'},
+    {'upper': 'too_small'}, {'upper': 'slightly_above'}, {'upper': 'slightly_below'}, {'upper': 'unsorted'}, {'upper': 'negative'}, {'upper': 'nan'}, {'upper': 'beyond'},
     {'arrays': 'empty'}, {'arrays': 'len1'}, {'arrays': 'mismatch_short'}, {'arrays': 'mismatch_long'}, {'short': 'rho'}, {'short': 'g'}, {'short': 'K'}, {'short': 'mu'}, {'short': 'r'}, {'long': 'rho'}, {'long': 'g'}, {'long': 'K'}, {'long': 'r'}, {'arrays': 'noncontig'}, {'arrays': 'float32'}, {'arrays': 'readonly'},
     {'radius0': 0.0, 'kw': {'max_num_steps': 100}}, {'radius': 'decreasing'}, {'radius': 'duplicate'}, {'radius': 'negative'},
 ] + [{'array_value': [a, i, v]} for a in ('rho', 'g', 'K', 'mu', 'r') for i, v in (('all', 'nan'), (5, 'nan'), ('all', 0.0), (5, 0.0), (5, -1.0), (5, 'inf'))] + [
@@ -165,6 +165,10 @@ def build_inputs(c):
     up = f.get('upper')
     if up == 'too_small':
         tops[-1] = 1e5
+    elif up == 'slightly_above':
+        tops[-1] = tops[-1] * 1.01
+    elif up == 'slightly_below':
+        tops[-1] = tops[-1] * 0.995
     elif up == 'unsorted':
         tops = tops[::-1] if len(tops) > 1 else [tops[0] * 0.5]
     elif up == 'negative':
@@ -285,7 +289,11 @@ def san_case(c):
             if a.dtype == np.complex128:
                 # real and imaginary parts are scaled by the same real factor
                 pass
-            out.setdefault('scaled_like', {})[k] = bool(ratios.size and np.all(np.isfinite(ratios)) and np.ptp(ratios) <= 1e-9 * abs(np.mean(ratios)) and not zero_changed)
+            # in-place non-dimensionalisation signature: every changed element is the original times ONE constant factor; elements the
+            # loop had not reached yet when the exception was raised are untouched (ratio exactly 1)
+            changed = ratios[np.abs(ratios - 1.0) > 1e-12] if a.dtype != np.complex128 else ratios[np.abs(ratios - 1.0) > 1e-12]
+            ok = bool(ratios.size and np.all(np.isfinite(ratios)) and not zero_changed and (changed.size == 0 or np.ptp(changed) <= 1e-9 * max(abs(np.mean(changed)), 1e-300)))
+            out.setdefault('scaled_like', {})[k] = ok
     out['input_dev'] = dev
     return out
 
